@@ -17,7 +17,7 @@ LEVEL_TEXT = ('PARTIAL. Decided statically: (a) the curve coordinate never reach
               'd <- d - digit; end point -> digit B-1 with zero remainder) and the radix B = 2^N built by N '
               'doublings; (c) every image lies in the cube (inductive bound) and is mapped into the box by the exact '
               'affine map; (d) the forward query reads no attribute that an earlier query left behind (the image is '
-              'a function of x and the configuration). Magnitudes of N*m bits are formed from int()-normalised values only. The evolvent keeps no process-wide state. NOT decided: that the node rule enumerates each of the 2^N sub-cells exactly once per '
+              'a function of x and the configuration). Magnitudes of N*m bits are formed from int()-normalised values only. The evolvent keeps no process-wide state; the forward query returns the transformed array as it is (value copies only, no rounding / clipping / narrowing call). NOT decided: that the node rule enumerates each of the 2^N sub-cells exactly once per '
               'orientation state (a combinatorial fact about an integer recursion).')
 EXPLANATION = ('Taint analysis of the forward query\'s argument; per-level normal forms of the digit extraction on path '
                'summaries (levels unrolled twice); constructor evaluation of the radix; the cube bound and affine map '
@@ -221,6 +221,90 @@ def _remainder_name(fn: FuncInfo) -> str:
     raise AnalysisError(f'{fn.short}: remainder variable not found')
 
 
+FLOAT64_NAMES = {'np.double', 'np.float64', 'float', 'numpy.double', 'numpy.float64', 'np.float_', 'numpy.float_'}
+COPY_FUNCS = C.VALUE_COPIES | {'numpy.ascontiguousarray', 'numpy.asfarray', 'numpy.asanyarray'}
+
+
+def r07_8(ctx: Ctx):
+    """What the forward query hands out is the affine image itself.  Any numeric post-processing of the returned
+    array (rounding to a number of decimals, clipping, a narrower float type) moves images by an absolute amount:
+    harmless for boxes of order one, but for a small box neighbouring cells collapse into one image and others are
+    never produced."""
+    rid = 'R07.8'
+    ctx.rule(rid, 'the forward query returns the transformed working array as it is - directly or through value '
+                  'copies (np.copy / np.array / .copy() / float64 conversions); no other library call sits between '
+                  'the affine map and the caller')
+    e = evo.evo_of(ctx)
+    gi = e.get_image
+    scratch = set(e._scratch_attrs())
+    n = 0
+    for p in C.normal_paths(e.explorer(unroll=1).explore(gi)):
+        n += 1
+        v = p.value
+        selfk = key_of(var(gi.param_names[0]))
+        work = {key_of(x) for (bk, fld), x in p.state.heap.items()
+                if bk == selfk and fld in scratch and x is not None}
+        for _ in range(8):
+            ce = C.call_event_of_result(p, v) if v is not None else None
+            if ce is None or any(isinstance(c, FuncInfo) for c in ce.d['callees']):
+                break               # not a call result, or the result of a routine of the repository (analysed there)
+            operands = list(ce.d['args']) + ([ce.d['recv']] if ce.d.get('recv') is not None else [])
+            if not any(key_of(C.through_value_copies(p, o)) in work for o in operands if o is not None):
+                break               # an allocation (np.zeros(n) ...), not a function of the working array
+            node = ce.node if isinstance(ce.node, ast.Call) else None
+            callee = ce.d.get('callee')
+            name = ce.d['name']
+            dts = []
+            if node is not None:
+                dts = [ast.unparse(k.value) for k in node.keywords if k.arg == 'dtype']
+                other_kw = [k.arg for k in node.keywords if k.arg not in ('dtype', 'copy', 'order')]
+            else:
+                other_kw = ['?']
+            nxt = None
+            if isinstance(callee, str) and callee in COPY_FUNCS and ce.d['args'] and not other_kw:
+                extra = [ast.unparse(a) for a in node.args[1:]] if node is not None else []
+                if all(d in FLOAT64_NAMES for d in dts + extra):
+                    nxt = ce.d['args'][0]
+            elif name in ('copy', 'view', 'tolist') and not ce.d['args'] and ce.d.get('recv') is not None:
+                nxt = ce.d['recv']
+            elif name == 'astype' and ce.d.get('recv') is not None and node is not None and \
+                    all(ast.unparse(a) in FLOAT64_NAMES for a in node.args) and all(d in FLOAT64_NAMES for d in dts) \
+                    and not other_kw:
+                nxt = ce.d['recv']
+            if nxt is None:
+                what = callee if isinstance(callee, str) else f'.{name}()'
+                ctx.fail(rid, gi.short, gi.loc(ce.node),
+                         f'the image is passed through {what} before it is returned '
+                         f'(`{ast.unparse(ce.node)[:70]}`): the returned point is no longer the affine image of the '
+                         f'cell centre - an absolute rounding / clipping merges neighbouring cells of a small box '
+                         f'into one image and leaves others without any', key=f'{rid}::{gi.short}::{what}')
+                break
+            v = nxt
+        # the same for a result array filled element by element: an element is the working array's element, not a
+        # library function of it
+        if p.value is not None:
+            rk = key_of(p.value)
+            for (bk, fld), el in p.state.heap.items():
+                if bk != rk or not (isinstance(fld, tuple) and fld and fld[0] == '[]') or not isinstance(el, RF):
+                    continue
+                ce = C.call_event_of_result(p, el)
+                if ce is None or any(isinstance(c, FuncInfo) for c in ce.d['callees']):
+                    continue
+                callee = ce.d.get('callee')
+                if callee in ('builtins.float', 'numpy.double', 'numpy.float64', 'numpy.float_'):
+                    continue
+                what = callee if isinstance(callee, str) else f'.{ce.d["name"]}()'
+                ctx.fail(rid, gi.short, gi.loc(ce.node),
+                         f'an element of the returned image is passed through {what} (`{ast.unparse(ce.node)[:70]}`): '
+                         f'the returned point is no longer the affine image of the cell centre - an absolute rounding / '
+                         f'clipping merges neighbouring cells of a small box into one image and leaves others without '
+                         f'any', key=f'{rid}::{gi.short}::element::{what}')
+    if not any(x.rule == rid for x in ctx.findings):
+        ctx.ok(rid, gi.short, f'{n} returning paths of the forward query: the returned array is the transformed working '
+                              f'array or a value copy of it', gi.loc())
+    ctx.floor(rid, 'returning paths of the forward query', n, 1)
+
+
 def r07_6(ctx: Ctx):
     """Integers of N*m bits.  The evolvent stores its dimension and density as the caller passed them - possibly
     fixed-width numpy integers (np.int32 from an array of configurations).  `1 << (N*m)`, `2 ** (N*m)` computed from
@@ -232,9 +316,20 @@ def r07_6(ctx: Ctx):
     e = evo.evo_of(ctx)
     init = e.cls.methods['__init__']
     raw = set()
-    for p in C.normal_paths(ctx.explorer().explore(init)):
+    normalised = set()
+    try:
+        ipaths = C.normal_paths(e.explorer(unroll=1).explore(init))
+    except AnalysisError:
+        ipaths = C.normal_paths(ctx.explorer().explore(init))
+    for p in ipaths:
         for (bk, fld), v in p.state.heap.items():
             a = v.single_atom() if isinstance(v, RF) else None
+            if bk == ('var', init.param_names[0]) and isinstance(fld, str) and isinstance(v, RF):
+                ce = C.call_event_of_result(p, v)
+                if ce is not None and ce.d.get('callee') in ('builtins.int', 'operator.index') and ce.d['args'] and \
+                        isinstance(ce.d['args'][0], RF) and isinstance(ce.d['args'][0].single_atom(), tuple) and \
+                        ce.d['args'][0].single_atom()[0] == 'var':
+                    normalised.add(fld)         # stored as a plain int whatever integer type the caller passed
             if bk == ('var', init.param_names[0]) and isinstance(fld, str) and isinstance(a, tuple) and \
                     len(a) == 2 and a[0] == 'var' and a[1] in init.param_names:
                 prm = [q for q in init.params if q.arg == a[1]]
@@ -301,7 +396,12 @@ def r07_6(ctx: Ctx):
                       key=ctx.key_for(rid, f, x))
     ctx.ok(rid, e.cls.name, f'{n} integer shifts / powers over the stored dimension or density; attributes stored '
                             f'verbatim: {sorted(all_raw)}', e.cls.module.relpath)
-    ctx.floor(rid, 'attributes the evolvent stores verbatim from integer parameters', len(all_raw), 1)
+    normalised -= all_raw
+    if normalised:
+        ctx.ok(rid, e.cls.name, f'attributes normalised to int by the constructor: {sorted(normalised)}',
+               e.cls.module.relpath)
+    ctx.floor(rid, 'attributes the evolvent stores from integer parameters (verbatim or int()-normalised)',
+              len(all_raw) + len(normalised), 1)
 
 
 def check(ctx: Ctx):
@@ -309,6 +409,8 @@ def check(ctx: Ctx):
         evo.rule_no_shared_state(ctx, 'R07.7')
     if C.want(ctx, 'R07.6'):
         r07_6(ctx)
+    if C.want(ctx, 'R07.8'):
+        r07_8(ctx)
     if C.want(ctx, 'R07.1'):
         r07_1(ctx)
     if C.want(ctx, 'R07.2') or C.want(ctx, 'R07.3'):
